@@ -38,8 +38,9 @@ MUTS_COMMUNITY = [
     "trunc-1",
     "trunc-half",
     "trunc-all",  # an empty datagram
+    "req+rid+1",  # a *request* PDU (GetRequest) of the right community with a foreign request-id (looped-back request)
 ]
-MUTS_COMMUNITY_REDUCED = ["rid+1", "rid=r*", "comm-case", "version-other", "trunc-1", "trunc-all"]
+MUTS_COMMUNITY_REDUCED = ["rid+1", "rid=r*", "comm-case", "version-other", "trunc-1", "trunc-all", "req+rid+1"]
 MUTS_V3 = [
     "rid+1",
     "rid+2^32",
@@ -119,6 +120,8 @@ def owners(d):
     if m is None:
         return rid_owner, mid_owner
     body = m[len("report+") :] if m.startswith("report+") else m
+    if body.startswith("req+"):
+        body = body[4:]
     if body == "rid0":
         rid_owner = None
     elif body.startswith("rid=r"):
@@ -235,13 +238,15 @@ class Exec:
         req = self.reqs[k]
         value = rb.enc_int(k * 10 + copy)
         vb = [(OID + (k,), value)]
+        if (m or "").startswith("req+"):
+            vb = [(OID + (k,), rb.enc_null())]  # a request binds its OIDs to NULL
         rid, mid = self.concrete_ids(d)
         kw = {}
         if mid is not None and mid != req.msg_id:
             kw["msg_id"] = mid
         community = req.community
         version = req.version
-        pdu_tag = rb.PDU_REPORT if (m or "").startswith("report") else rb.PDU_RESPONSE
+        pdu_tag = rb.PDU_REPORT if (m or "").startswith("report") else (rb.PDU_GET if (m or "").startswith("req+") else rb.PDU_RESPONSE)
         if m == "comm-case":
             community = community[:1].swapcase() + community[1:]
         elif m == "comm-prefix":
@@ -298,6 +303,8 @@ class Exec:
         if m is None:
             return rid, mid
         body = m[len("report+") :] if m.startswith("report+") else m
+        if body.startswith("req+"):
+            body = body[4:]
         adj = {"rid+1": 1, "rid-1": -1, "rid+2^32": 1 << 32, "rid-2^32": -(1 << 32), "rid-2^31": -(1 << 31)}
         if body == "rid0":
             rid = 0
